@@ -53,6 +53,8 @@ def run(pid, tier, seed):
             srcs["plain"] = g["plain"]
             # never an error / panic because of serde attributes
             for label, e in got.items():
+                if label == "plain" and (g.get("context") or "").startswith("#[serde(with"):
+                    continue    # without the `skip` under test, `with` alone is rightly refused
                 if e["outcome"] != "ok":
                     # ts-spelled members may legitimately be rejected? no: every member of a group is a valid combination
                     key = f"C10|{e['outcome']}|{g['kind']}|{g['level']}|{g['key']}|{g.get('unknown_class')}|{g.get('context')}|{cfg}"
